@@ -7,7 +7,7 @@ CONSTANTS
   MaxDepth = 1
   Fam = {"ReseedAt", "RerootAtNode", "RerootAtEdge", "RerootAtMidpoint", "ToOutgroupPosition", "Ladderize", "Reorder"}
   Rootings = {0, 1}
-  LenPats = {"all012", "none", "rootlen"}
+  LenPats = {"rootmixed", "all012", "none", "rootlen"}
   ShapeMode = "unordered"
   OptsFirst <- OptsAll
   OptsLater <- OptsOA
